@@ -24,6 +24,9 @@ MAXFAIL = 40
 def conc(tag, v, pal):
     if v == -1:
         return None
+    if tag == "finf":
+        # float keys at the ends of the number line: -inf < ... < inf are ordinary values, distinct from None
+        return {1: float("-inf"), 2: float("inf")}.get(v, float(v))
     if tag in ("xl", "xr"):
         # object-dtype key columns whose EQUAL keys have different Python types on the two sides (1 / True, 12 / 12.0):
         # joins match by ==, like dict lookup, in every join kind
@@ -87,7 +90,9 @@ def key_args(side, kidx, variant):
         return (names[0] if len(names) == 1 else names), cols
     if variant == 1:
         return (cols[0] if len(cols) == 1 else list(cols)), cols
-    ext = [Vector(list(side.cols[c]), name=side.names[c]) for c in kidx]
+    # external vectors under their column's name, without any name, or ALL under one and the same name (derived key vectors
+    # such as t.period // 100 and t.period % 100 both carry the name 'period'): each is a key component of its own
+    ext = [Vector(list(side.cols[c]), name=(side.names[c] if variant == 2 else None if variant == 3 else "k")) for c in kidx]
     return (ext[0] if len(ext) == 1 else ext), ext
 
 
@@ -102,7 +107,8 @@ def run_join(L, R, lk_idx, rk_idx, kind, expect, variant):
     return st, res, err, views_equal(before, after), pre
 
 
-BOGUS = ["bogus", "", None, 0, False, (), "MANY_TO_ONE", " many_to_one", "many-to-one", 1, "one_to_one ", ["many_to_one"], b"many_to_one", "one_to_many_", True]
+BOGUS = ["bogus", "", None, 0, False, (), "MANY_TO_ONE", " many_to_one", "many-to-one", 1, "one_to_one ", ["many_to_one"], b"many_to_one", "one_to_many_", True,
+         "one_to_one\n", "many_to_many\n", "\nmany_to_one", "many_to_one\r\n", "one_to_many\t", "many_to_one\x00", "one_to_one;", "ONE_TO_ONE"]
 
 
 def replay_join(cases_path, out_path):
@@ -121,7 +127,7 @@ def replay_join(cases_path, out_path):
         nk = len(c["lk"][0]) if c["lk"] else (len(c["rk"][0]) if c["rk"] else 1)
         tag = (KEY_TAGS + ["intc", "x"])[n % 6]     # "intc": distinct ints with colliding hashes; "x": cross-type equal keys
         pal = (n // 5) % 3
-        variant = (n // 15) % 3
+        variant = (n // 15) % 5
         same_names = (n // 45) % 2 == 0
         lrows = [list(k) + [100 + i, (-1 if i % 2 else 7)] for i, k in enumerate(c["lk"])]
         rrows = [list(k) + [200 + j] for j, k in enumerate(c["rk"])]
@@ -138,7 +144,7 @@ def replay_join(cases_path, out_path):
             expect = BOGUS[(n // 3) % len(BOGUS)]
         st, res, err, unchanged, pre = run_join(L, R, list(range(nk)), list(range(nk)), c["kind"], expect, variant)
         executed += 1
-        info = {"tag": tag, "palette": pal, "key_form": ["names", "own columns", "external vectors"][variant], "expect_value": repr(expect)}
+        info = {"tag": tag, "palette": pal, "key_form": ["names", "own columns", "external vectors", "unnamed external vectors", "external vectors all named 'k'"][variant], "expect_value": repr(expect)}
         if pre:
             skipped["precondition: key dtype kinds differ"] = skipped.get("precondition: key dtype kinds differ", 0) + 1
             continue
